@@ -512,6 +512,80 @@ fn metadata_checks(dir: &Path, size: u64, acc: &mut Acc) -> Check {
     Ok(())
 }
 
+/// A regular file last modified before 1970 is still a regular file: construction, validators
+/// and serving must work (such times come from archives, clock resets and `touch -d`).
+fn pre_epoch_checks(dir: &Path, size: u64, secs: u64, nanos: u32, acc: &mut Acc) -> Check {
+    let p = dir.join("old");
+    write_file(&p, size);
+    let t = std::time::UNIX_EPOCH - Duration::new(secs, nanos);
+    File::options().write(true).open(&p).unwrap().set_modified(t).expect("set_modified");
+    let md = std::fs::metadata(&p).unwrap();
+    if md.modified().unwrap() >= std::time::UNIX_EPOCH {
+        acc.count("pre-epoch-mtime-not-stored-on-this-filesystem");
+        return Ok(());
+    }
+    let tag = |p: &Path| -> Result<(Vec<u8>, std::time::SystemTime), Fail> {
+        match crate::panics::guard(|| etag_of(p)) {
+            Ok(r) => r.map(|(e, _, m)| (e, m)),
+            Err(m) => fail(format!("pre-epoch-mtime-panic:{}", crate::panics::panic_sig(&m)), format!("ChunkedReadFile on a file modified at {:?} panicked: {m}", md.modified().unwrap())),
+        }
+    };
+    let (e1, m1) = tag(&p)?;
+    ensure!(valid_strong_tag(&e1), "etag-syntax", "ETag {:?} is not a valid strong entity-tag (mtime {:?})", crate::util::show_bytes(&e1), md.modified().unwrap());
+    ensure!(m1 == md.modified().unwrap(), "mtime-differs", "last_modified() {:?} != metadata {:?}", m1, md.modified().unwrap());
+    let (e2, _) = tag(&p)?;
+    ensure!(e1 == e2, "etag-unstable", "two instances on the unmodified file have ETags {:?} and {:?}", crate::util::show_bytes(&e1), crate::util::show_bytes(&e2));
+    // change-sensitive on that side of the epoch too, and distinct from the mirrored time after it
+    for (name, nt) in [("-1ns", t - Duration::from_nanos(1)), ("+1ns", t + Duration::from_nanos(1)), ("-1s", t - Duration::from_secs(1)), ("mirrored", std::time::UNIX_EPOCH + Duration::new(secs, nanos))] {
+        File::options().write(true).open(&p).unwrap().set_modified(nt).expect("set_modified");
+        if std::fs::metadata(&p).unwrap().modified().unwrap() != md.modified().unwrap() {
+            let (e, _) = tag(&p)?;
+            ensure!(e != e1, format!("etag-insensitive:pre-epoch-mtime{name}"), "mtime changed from {t:?} to {nt:?} but the ETag stayed {:?}", crate::util::show_bytes(&e));
+        }
+    }
+    File::options().write(true).open(&p).unwrap().set_modified(t).unwrap();
+    // served through serve(): no panic, the whole file
+    let q = p.clone();
+    let served = crate::panics::guard(|| {
+        with_runtime(|rt| {
+            rt.block_on(rt.spawn(async move {
+                let crf = Crf::new(File::open(&q).expect("open"), http::HeaderMap::new()).expect("construct");
+                let req = http::Request::builder().method("GET").uri("/").body(()).unwrap();
+                let resp = http_serve::serve(crf, &req);
+                let status = resp.status().as_u16();
+                let mut body = Box::pin(resp.into_body());
+                let mut got = Vec::new();
+                let mut polls = 0;
+                while let Some(f) = std::future::poll_fn(|cx| http_body::Body::poll_frame(body.as_mut(), cx)).await {
+                    polls += 1;
+                    match f {
+                        Ok(f) => {
+                            if let Ok(d) = f.into_data() {
+                                got.extend_from_slice(&d);
+                            }
+                        }
+                        Err(e) => return Err(format!("body error: {e}")),
+                    }
+                    if polls > 16 {
+                        return Err("too many polls".to_string());
+                    }
+                }
+                Ok((status, got))
+            }))
+        })
+    });
+    match served {
+        Ok(Ok(Ok((status, got)))) => {
+            ensure!(status == 200 && got == content(0, size as usize), "pre-epoch-serve", "serve() of a file modified at {t:?} answered {status} with {} bytes (file has {size})", got.len());
+        }
+        Ok(Ok(Err(m))) => return fail("pre-epoch-serve", format!("serving a file modified at {t:?}: {m}")),
+        Ok(Err(e)) => return fail(format!("pre-epoch-mtime-panic:serve"), format!("serve() of a file modified at {t:?} panicked: {e}")),
+        Err(m) => return fail("pre-epoch-mtime-panic:serve", format!("serve() of a file modified at {t:?} panicked: {m}")),
+    }
+    acc.note("metadata:pre-epoch-mtime", true, size * 1000 + secs % 997 + nanos as u64 % 7, || json!({"size": size, "before_epoch": [secs, nanos], "etag": crate::util::show_bytes(&e1)}));
+    Ok(())
+}
+
 fn nonregular_checks(dir: &Path, acc: &mut Acc) -> Check {
     for (name, path) in [("directory", dir.to_path_buf()), ("dev-null", PathBuf::from("/dev/null"))] {
         let f = File::open(&path).expect("open non-regular");
@@ -672,6 +746,10 @@ pub fn run(cx: &Cx) -> Acc {
         let scratch = Scratch::new(&format!("c18m-{size}"));
         let case = json!({"metadata": size});
         acc.run_case(cx, "metadata", &case, |acc| metadata_checks(&scratch.dir, size, acc));
+        for (secs, nanos) in [(86_400u64, 0u32), (0, 1), (1, 500_000_000), (3_000_000_000, 999_999_999)] {
+            let case = json!({"pre_epoch": [size, secs, nanos]});
+            acc.run_case(cx, "metadata", &case, |acc| pre_epoch_checks(&scratch.dir, size, secs, nanos, acc));
+        }
         if size == 0 {
             let case = json!({"nonregular": true});
             acc.run_case(cx, "metadata", &case, |acc| nonregular_checks(&scratch.dir, acc));
@@ -687,6 +765,9 @@ pub fn replay(_cx: &Cx, _phase: &str, case: &Value, acc: &mut Acc) -> Check {
     }
     if case.get("nonregular").is_some() {
         return nonregular_checks(&scratch.dir, acc);
+    }
+    if let Some(v) = case.get("pre_epoch") {
+        return pre_epoch_checks(&scratch.dir, v[0].as_u64().unwrap_or(0), v[1].as_u64().unwrap_or(0), v[2].as_u64().unwrap_or(0) as u32, acc);
     }
     if let Some(sp) = case.get("sparse") {
         let (size, a, b) = (sp["size"].as_u64().unwrap_or(0), sp["start"].as_u64().unwrap_or(0), sp["end"].as_u64().unwrap_or(0));
